@@ -277,6 +277,12 @@ class Routing:
                     if c in self.single:
                         if c in direct:
                             unresolved = True
+                        if depth > 0 and (self.blocked.get(c) or getattr(d, 'block_input', False)
+                                          or m.items.get(c, {}).get('res')):
+                            # a pass-through device ranks by the longest-waiting device behind it, also when that one
+                            # will refuse (blocked input, exhausted pool): the level-by-level choice is then not the
+                            # choice among the devices able to take the part, and is not judged
+                            unresolved = True
                         direct.append(c)
                     elif depth < 2 and c not in rewired and (
                             k == 'flow' or (k == 'gate' and self.pred.get(c, {}).get('t') == 'always')):
